@@ -1,14 +1,128 @@
 (** Property C15 — stereo information survives fragmentation and renumbering.
-    Only statements, each closed by [exact]; proofs in Stereo/EzProofs.v. *)
+    Only statements, each closed by [exact]; proofs in Stereo/EzProofs.v.
+    Model: Stereo/EzImpl.v = annotate_ez_isomers_cgsmiles + pysmiles' _annotate_ez_isomers,
+    _check_for_ez_conflicts, _interpret_cis_trans_tokens (third-party, modelled and validated against
+    the installed library by the per-run correspondence of ./check C15).
+
+    What is and is not proved
+    - ez_refs_valid, ez_symmetric, ez_class_table: unbounded, every well-formed graph and marking.
+    - ez_order_invariant (the property's "does not depend on the order in which the base graph lists the
+      fragments") is REFUTED for the current code: C15_order_refuted.  The defect class is
+      [pair_in_class] (the second-enumerated anchor's ligand has the smaller key); C15_order_partial is the
+      statement outside the class and C15_class_exact shows the class is not wider than the defect.
+    - ez_renumber_invariant_partial: invariance under a structure-preserving renumbering that is monotone
+      on adjacent pairs; NOT covered: renumberings that change the adjacency/edge enumeration (that is
+      where the refutation lives).
+    - chiral_stays: for the attribute copy of merge_graphs (GraphOps.merge_node) and for the annotation
+      step; the rest of the pipeline (relabelling in sort_nodes_by_attr, hydrogens) is decided per run by
+      the generated search, clause (b) of EzCheck.prop_fail. *)
 From Coq Require Import String.
 From Coq Require Import List Ascii ZArith Bool.
-From CGV Require Import Base.PyBase Base.PyVal Base.NxGraph Stereo.EzImpl Stereo.EzDefs Stereo.EzProofs.
+From CGV Require Import Base.PyBase Base.PyVal Base.NxGraph Resolve.GraphOps
+     Stereo.EzImpl Stereo.EzDefs Stereo.EzWitness Stereo.EzProofs.
 Import ListNotations.
 Open Scope Z_scope.
+
+(** (a) every tuple the step adds is a path ligand - anchor = anchor - ligand of the returned molecule:
+    all four keys are nodes, both outer edges exist, the middle edge has order 2, ligands are not anchors *)
+Theorem C15_ez_refs_valid : forall g g', wf_graph g -> annotate_ez_isomers_cgsmiles g = Ok g' ->
+  forall k v, In v (ez_list g' k) -> In v (ez_list g k) \/ tuple_ok g' k v = true.
+Proof. exact ez_refs_valid. Qed.
+Theorem C15_refs_ok_preserved : forall g g', wf_graph g -> refs_ok g = true ->
+  annotate_ez_isomers_cgsmiles g = Ok g' -> refs_ok g' = true.
+Proof. exact refs_ok_preserved. Qed.
+Theorem C15_wf_graphb_sound : forall g, wf_graphb g = true -> wf_graph g.
+Proof. exact wf_graphb_sound. Qed.
+
+(** each relation is stored on both ligands, mirrored, with one class *)
+Theorem C15_ez_symmetric : forall g g', wf_graph g -> annotate_ez_isomers_cgsmiles g = Ok g' ->
+  forall k v, is_new g g' k v ->
+  exists l1 a1 a2 l2 c, v = ez_tuple l1 a1 a2 l2 c /\ k = l1 /\ (c = v_cis \/ c = v_trans) /\
+                        In (ez_tuple l2 a2 a1 l1 c) (ez_list g' l2).
+Proof. exact ez_symmetric. Qed.
 
 (** the class is a function of the two tokens and of the single comparison ligand_first < anchor_first *)
 Theorem C15_ez_class_table : forall lf af t1 t2, lf <> af -> is_tok t1 = true -> is_tok t2 = true ->
   interpret lf af t1 t2 = Some (table (lf <? af) t1 t2).
 Proof. exact interpret_table. Qed.
 
+(** ... which is the geometric meaning of the written marks iff the second ligand follows its anchor *)
+Theorem C15_class_iff_wrong : forall p : sub * sub,
+  is_tok (s_tok (fst p)) = true -> is_tok (s_tok (snd p)) = true -> s_lig (snd p) <> s_anc (snd p) ->
+  table (s_lig (fst p) <? s_anc (fst p)) (s_tok (fst p)) (s_tok (snd p)) =
+  (if pair_in_class p then class_val (negb (geom_cis (s_lig (fst p) <? s_anc (fst p)) (s_tok (fst p))
+                                                      (s_lig (snd p) <? s_anc (snd p)) (s_tok (snd p))))
+   else pair_geom p).
+Proof. exact class_iff_wrong. Qed.
+
+(** independence of the base-graph order: refuted (DESIGN 5 row 18), partial outside the class, class exact *)
+Theorem C15_order_refuted :
+  exists g1 g2 iso r1 r2,
+    wf_graphb g1 = true /\ wf_graphb g2 = true /\ same_marked_moleculeb iso g1 g2 = true /\
+    annotate_ez_isomers_cgsmiles g1 = Ok r1 /\ annotate_ez_isomers_cgsmiles g2 = Ok r2 /\
+    in_class g1 = false /\ in_class g2 = true /\
+    exists l1 a1 a2 l2,
+      In (ez_tuple l1 a1 a2 l2 v_trans) (ez_list r1 l1) /\
+      In (ez_tuple (iso l1) (iso a1) (iso a2) (iso l2) v_cis) (ez_list r2 (iso l1)).
+Proof. exact order_refuted. Qed.
+Theorem C15_order_partial : forall p p', pair_wf p -> pair_wf p' -> same_substituents p p' ->
+  pair_in_class p = false -> pair_in_class p' = false -> pair_result p = pair_result p'.
+Proof. exact order_invariant_outside_class. Qed.
+Theorem C15_class_exact : forall p p', pair_wf p -> pair_wf p' -> same_substituents p p' ->
+  pair_in_class p = true -> pair_in_class p' = false -> pair_result p <> pair_result p'.
+Proof. exact class_exact. Qed.
+
+(** chirality label: attribute copy of merge_graphs, and the annotation step *)
+Theorem C15_chiral_stays_merge : forall off fo a a', merge_node off fo a = Ok a' ->
+  aget (S "chiral") a' = aget (S "chiral") a.
+Proof. exact chiral_stays_merge. Qed.
+Theorem C15_chiral_stays_annotate : forall g g' k, annotate_ez_isomers_cgsmiles g = Ok g' ->
+  node_get g' k (S "chiral") = node_get g k (S "chiral") /\ node_keys g' = node_keys g.
+Proof. exact chiral_stays_annotate. Qed.
+
+(** non-vacuity: a well-formed molecule with marks on which the step succeeds and stores two tuples;
+    two pairs of two variants that satisfy the hypotheses of the partial theorem *)
+Example C15_nonvacuous :
+  wf_graph w_AB /\ refs_ok w_AB = true /\
+  exists g', annotate_ez_isomers_cgsmiles w_AB = Ok g' /\ is_new w_AB g' 0 (ez_tuple 0 1 3 5 v_trans) /\
+             refs_ok g' = true.
+Proof.
+  split; [apply wf_graphb_sound; vm_compute; reflexivity|]. split; [vm_compute; reflexivity|].
+  eexists. split; [vm_compute; reflexivity|]. split; [|vm_compute; reflexivity].
+  split; [vm_compute; left; reflexivity|vm_compute; tauto].
+Qed.
+Example C15_partial_nonvacuous :
+  (* C(/F)=C/I enumerated from either end: both outside the class, same result *)
+  let p := ({| s_lig := 2; s_anc := 1; s_tok := tok_slash |}, {| s_lig := 5; s_anc := 3; s_tok := tok_slash |}) in
+  let p' := ({| s_lig := 5; s_anc := 3; s_tok := tok_slash |}, {| s_lig := 2; s_anc := 1; s_tok := tok_slash |}) in
+  pair_wf p /\ pair_wf p' /\ same_substituents p p' /\ pair_in_class p = false /\ pair_in_class p' = false /\
+  pair_result p = Some v_cis /\ pair_result p' = Some v_cis.
+Proof.
+  cbv zeta. repeat split; try (vm_compute; reflexivity); try (cbn; discriminate).
+  right. repeat split.
+Qed.
+Example C15_exact_nonvacuous :
+  (* F/C=C/I enumerated from the other end puts F (key 0) below its anchor (key 1) in second position *)
+  let p := ({| s_lig := 5; s_anc := 3; s_tok := tok_slash |}, {| s_lig := 0; s_anc := 1; s_tok := tok_slash |}) in
+  let p' := ({| s_lig := 0; s_anc := 1; s_tok := tok_slash |}, {| s_lig := 5; s_anc := 3; s_tok := tok_slash |}) in
+  pair_wf p /\ pair_wf p' /\ same_substituents p p' /\ pair_in_class p = true /\ pair_in_class p' = false /\
+  pair_result p = Some v_cis /\ pair_result p' = Some v_trans.
+Proof.
+  cbv zeta. repeat split; try (vm_compute; reflexivity); try (cbn; discriminate).
+  right. repeat split.
+Qed.
+Example C15_merge_nonvacuous :
+  exists a', merge_node 3 1 [(S "element", VStr (S "C")); (S "fragid", VInt 0); (S "chiral", VStr (S "R"))] = Ok a'
+             /\ aget (S "chiral") a' = Some (VStr (S "R")).
+Proof. eexists. split; vm_compute; reflexivity. Qed.
+
+Print Assumptions C15_ez_refs_valid.
+Print Assumptions C15_refs_ok_preserved.
+Print Assumptions C15_ez_symmetric.
 Print Assumptions C15_ez_class_table.
+Print Assumptions C15_class_iff_wrong.
+Print Assumptions C15_order_refuted.
+Print Assumptions C15_order_partial.
+Print Assumptions C15_class_exact.
+Print Assumptions C15_chiral_stays_merge.
+Print Assumptions C15_chiral_stays_annotate.
